@@ -40,7 +40,7 @@ func runGetDagCase(carBin string, raw []byte, dir string) (string, string, bool)
 		return "", "", false // a custom selector always disables visit-once in the tool: not expressible
 	}
 	order := []string{"n1", "n2", "n3", "n4"}[:len(c.Kids)]
-	d := buildTvDag(c.Kids, order)
+	d := buildTvDag(c.Kids, order, "")
 	miss := map[string]bool{}
 	for _, m := range o.Opt.Miss {
 		miss[m] = true
